@@ -22,3 +22,6 @@ package contracts
 //@ func token.(TokenMap).TokenString
 //@   trusted
 //@   assigns nothing
+//@ func token.(Pos).String
+//@   trusted
+//@   assigns nothing
